@@ -44,10 +44,15 @@ rc, o = run("git -C /repo apply %s/patch.diff" % out, "/verif")
 if rc != 0:
     print("patch does not apply to /repo:", o); sys.exit(2)
 t = time.time()
+# evidence/<id>.json must always describe a run on the unchanged tree: keep it aside while the patched tree is checked
+ev = "/verif/evidence/%s.json" % pid
+ev_keep = open(ev, "rb").read() if os.path.exists(ev) else None
 try:
     rcc, oc = run("bin/vp check %s --tier quick" % pid, "/verif", timeout=3600)
 finally:
     run("git -C /repo checkout -q -- .", "/verif")
+    if ev_keep is not None:
+        open(ev, "wb").write(ev_keep)
 lines = [l for l in oc.split("\n") if l.startswith(("VIOLATION", "KNOWN-FINDING", "CHECK-BROKEN", "STALE"))]
 print("check exit", rcc, "in %.0fs" % (time.time() - t))
 print("\n".join(lines[:8]))
